@@ -664,6 +664,14 @@ func (g *lcGen) corrupt(r *rand.Rand, c *beacon.ConsensusLightClient, u *lcUpd, 
 				continue
 			}
 			b := *u.finBr
+			if r.Intn(4) == 0 { // the whole branch zeroed (what an "absent" branch looks like on the wire)
+				for i := range b {
+					b[i] = [32]byte{}
+				}
+				u.finBr = &b
+				u.corrupt = "fin-branch-zero"
+				break
+			}
 			b[r.Intn(6)][r.Intn(32)] ^= 1 << uint(r.Intn(8))
 			u.finBr = &b
 			u.corrupt = "fin-branch"
@@ -672,6 +680,14 @@ func (g *lcGen) corrupt(r *rand.Rand, c *beacon.ConsensusLightClient, u *lcUpd, 
 				continue
 			}
 			b := *u.nextBr
+			if r.Intn(4) == 0 {
+				for i := range b {
+					b[i] = [32]byte{}
+				}
+				u.nextBr = &b
+				u.corrupt = "next-branch-zero"
+				break
+			}
 			b[r.Intn(5)][r.Intn(32)] ^= 1 << uint(r.Intn(8))
 			u.nextBr = &b
 			u.corrupt = "next-branch"
